@@ -174,7 +174,7 @@ func (p *HashPool) Draw(t *rapid.T) []byte {
 }
 
 // drawRef draws one ref record that fits in maxRec bytes.
-func drawRef(t *rapid.T, ng *NameGen, hp *HashPool, min, max uint64, maxRec int, kinds []int) (Ref, bool) {
+func drawRef(t *rapid.T, ng *NameGen, hp *HashPool, min, max uint64, maxRec int, kinds []int, pad int) (Ref, bool) {
 	r := Ref{}
 	if max-min < 64 {
 		r.Idx = min + uint64(rapid.IntRange(0, int(max-min)).Draw(t, "idx"))
@@ -227,7 +227,14 @@ func drawRef(t *rapid.T, ng *NameGen, hp *HashPool, min, max uint64, maxRec int,
 	if nameMax > 250 {
 		nameMax = 250
 	}
-	r.Name = Str(ng.Draw(t, nameMax))
+	name := ng.Draw(t, nameMax)
+	if pad > nameMax {
+		pad = nameMax
+	}
+	if len(name) < pad {
+		name += strings.Repeat("_", pad-len(name))
+	}
+	r.Name = Str(name)
 	return r, true
 }
 
@@ -357,7 +364,7 @@ func DrawTable(t *rapid.T, o TableOpts) TableSpec {
 		cfg.BlockSize = rapid.SampledFrom([]uint32{64, 72, 80, 96, 128, 160, 200, 256}).Draw(t, "bsSmall")
 	}
 	if o.Hot {
-		cfg.BlockSize = rapid.SampledFrom([]uint32{64, 72, 80, 96, 128, 160}).Draw(t, "bsHot")
+		cfg.BlockSize = rapid.SampledFrom([]uint32{96, 112, 128, 160}).Draw(t, "bsHot")
 		cfg.SkipIndexObjects = false
 	}
 	min, max := DrawLimits(t)
@@ -391,10 +398,14 @@ func DrawTableWith(t *rapid.T, cfg Cfg, min, max uint64, o TableOpts) TableSpec 
 		nrefs = 0
 	}
 	if o.Hot {
-		nrefs = rapid.IntRange(minInt(40, o.MaxRefs), o.MaxRefs).Draw(t, "nrefsHot")
+		nrefs = rapid.IntRange(minInt(90, o.MaxRefs), o.MaxRefs).Draw(t, "nrefsHot")
 	}
 	for i := 0; i < nrefs; i++ {
-		if r, ok := drawRef(t, ng, hp, min, max, maxRec, o.Kinds); ok {
+		pad := 0
+		if o.Hot {
+			pad = 48 // about one ref per block
+		}
+		if r, ok := drawRef(t, ng, hp, min, max, maxRec, o.Kinds, pad); ok {
 			spec.Refs = append(spec.Refs, r)
 		}
 	}
